@@ -740,7 +740,7 @@ func raceKey(blk string) string {
 				continue // file:line
 			}
 			fn := strings.TrimSpace(l)
-			if i := strings.Index(fn, "("); i > 0 {
+			if i := strings.LastIndex(fn, "("); i > 0 {
 				fn = fn[:i]
 			}
 			if strings.HasPrefix(fn, "runtime.") {
